@@ -90,6 +90,9 @@ def runOp (uid : Nat) (c : GClient) (op : String) : Option (GClient × String) :
       let (c', res, sent, evs) := go k ⟨b, []⟩ c [] []
       pure (c', showStep res (framesOf uid sent) evs)
     | _ => none
+  | 'C' :: _ =>
+    -- the transport's read granularity changes: invisible to every layer above the link
+    some (c, showStep "ok" [] [])
   | 'T' :: rest => do
     let e ← parseInEvent (String.ofList rest)
     match clientTryWrite c e with
@@ -140,6 +143,7 @@ def oracleSteps (uid : Nat) : RState → Nat → List String → List String →
   | s, sid, h :: hs, op :: ops, m :: ms, acc =>
     let sentOf := fun (x : String) => ((x.splitOn "[").getD 1 "").dropEnd 1 |>.toString
     if h = "X" then oracleSteps uid s sid hs ops ms ("E[][]" :: acc)
+    else if h = "CH" then oracleSteps uid s sid hs ops ms ("ok[][]" :: acc)
     else if h = "WB" then
       -- a raw stream of complete fast-path frames: inside the window every rectangle of every
       -- frame the reference deframer and decoder find is delivered, in order
